@@ -408,7 +408,6 @@ template <typename Boundary, typename Info>
 template <typename From>
 typename Enable_If<Is_Interval<From>::value, bool>::type
 Interval<Boundary, Info>::simplify_using_context_assign(const From& y) {
-  // FIXME: the following code wrongly assumes that intervals are closed
   if (lt(UPPER, upper(), info(), LOWER, f_lower(y), f_info(y))) {
     lower_extend();
     return false;
@@ -417,14 +416,14 @@ Interval<Boundary, Info>::simplify_using_context_assign(const From& y) {
     upper_extend();
     return false;
   }
-  // Weakening the upper bound.
-  if (!upper_is_boundary_infinity() && !y.upper_is_boundary_infinity()
-      && y.upper() <= upper()) {
+  // Weakening the upper bound (the comparison accounts for open boundaries).
+  if (!upper_is_boundary_infinity()
+      && le(UPPER, f_upper(y), f_info(y), UPPER, upper(), info())) {
     upper_extend();
   }
   // Weakening the lower bound.
-  if (!lower_is_boundary_infinity() && !y.lower_is_boundary_infinity()
-      && y.lower() >= lower()) {
+  if (!lower_is_boundary_infinity()
+      && ge(LOWER, f_lower(y), f_info(y), LOWER, lower(), info())) {
     lower_extend();
   }
   return true;
